@@ -1,4 +1,5 @@
 import StepModel.GenFiles
+import StepModel.GenCxxPassLemmas
 /-!
 # C17 — the build-time scanner predicts exactly the files the C++ generator writes
 
@@ -218,6 +219,32 @@ theorem C17_file (f : SchemaFile) (wf : ∀ s ∈ f.schemas, s.wf) (acc : Cxx.ac
       · refine ⟨s, hs, Or.inr ?_⟩
         rw [← u1, ← u2]
         simpa using hx
+
+/-! ## a self-contained schema is printed in one pass -/
+
+/-- For **every** set of types and entities of a schema that refers to nothing outside itself, every iteration order of
+    its symbol table and any number of `checkTypes`/`checkEnts` sweeps: nothing is marked CANTPROCESS, the schema is not set
+    back to UNPROCESSED, and `SCHEMAprint` is called once with suffix 0 — so the per-schema files are `Sdai<S>.h/.cc/…`,
+    the names the scanner lists.  Stated for the last case of `ENUMcanBeProcessed` found in the tree (`enumLastCase`,
+    regenerated): the proof goes through only for `inSchemaOrProcessed`. -/
+theorem C17_self_contained_schema_one_pass (os order : List Pass.Obj) (n : Nat) :
+    Pass.suffixes (Pass.sweeps Generated.CxxPass.enumLastCase os order n Pass.initial) = [0] := by
+  have hc : Generated.CxxPass.enumLastCase = .inSchemaOrProcessed := by decide
+  rw [hc]
+  have h : Pass.Good Pass.initial := ⟨fun k => by simp [Pass.initial], rfl⟩
+  have := (Pass.sweeps_good os order n _ h).2
+  simp [Pass.suffixes, this]
+
+/-- Why that case matters: with `return ( a->search_id >= CANPROCESS )` as last case, a select visited before a renamed
+    enumeration item and its original (both still NOTKNOWN) is marked CANTPROCESS and the single schema is printed as
+    `_1`, `_2` (shape: `TYPE colour = ENUMERATION…; TYPE finish_colour = colour; TYPE pick = SELECT (finish_colour, …)`). -/
+theorem C17_one_pass_needs_last_case_witness :
+    let os : List Pass.Obj := [{ name := "pick", isSelect := true, items := ["finish_colour"] },
+                               { name := "finish_colour", isEnum := true, renameOf := some "colour" },
+                               { name := "colour", isEnum := true }]
+    Pass.suffixes (Pass.sweeps .ancestorMark os os 1 Pass.initial) = [1, 2] ∧
+    Pass.suffixes (Pass.sweeps .inSchemaOrProcessed os os 1 Pass.initial) = [0] := by
+  decide
 
 /-! ## directory / library name -/
 
